@@ -12,6 +12,8 @@ git -C /repo worktree add -q --detach "$W" HEAD || exit 2
 rc=0
 for p in "$@"; do
   echo "=== $p on mutant $(basename "$(dirname "$PATCH")")"
+  cp "$DIR/evidence/$p.json" "/tmp/mut/ev_$$_$p.json" 2>/dev/null   # evidence must come from the clean tree
   ( cd "$DIR" && PYTHONPATH="$W" TFL_REPO="$W" VERIF_TIER="${VERIF_TIER:-quick}" ./check "$p" --tier "${VERIF_TIER:-quick}" 2>/dev/null | grep -v "^KNOWN-FINDING" | tail -3 )
+  mv "/tmp/mut/ev_$$_$p.json" "$DIR/evidence/$p.json" 2>/dev/null
 done
 git -C /repo worktree remove --force "$W"
